@@ -4,6 +4,7 @@ import (
 	"fmt"
 	"net"
 	"net/netip"
+	"strconv"
 	"strings"
 
 	"github.com/AdguardTeam/golibs/netutil"
@@ -66,12 +67,107 @@ func showPrefix(p netip.Prefix, err error) string {
 	return "ok:" + H(p.Addr().AsSlice()) + "/" + I(p.Bits())
 }
 
+// refLabels splits the name as the property states it: one trailing dot removed, ASCII lower case.
+func refLabels(in string) []string { return strings.Split(lowerASCII(trimOneDot(in)), ".") }
+
+func isOctetLabel(l string) bool {
+	v, err := strconv.Atoi(l)
+	return err == nil && 0 <= v && v <= 255 && strconv.Itoa(v) == l
+}
+
+func isNibbleLabel(l string) bool {
+	return len(l) == 1 && (('0' <= l[0] && l[0] <= '9') || ('a' <= l[0] && l[0] <= 'f'))
+}
+
+// refPrefixOf builds the prefix spelled by the labels (string order, i.e. last octet / nibble first).
+func refPrefixOf(labs []string, v4 bool) string {
+	if v4 {
+		b := make([]byte, 4)
+		for i := range labs {
+			v, _ := strconv.Atoi(labs[len(labs)-1-i])
+			b[i] = byte(v)
+		}
+		return "ok:" + H(b) + "/" + I(8*len(labs))
+	}
+	b := make([]byte, 16)
+	for i := range labs {
+		v, _ := strconv.ParseUint(labs[len(labs)-1-i], 16, 8)
+		if i%2 == 0 {
+			b[i/2] |= byte(v) << 4
+		} else {
+			b[i/2] |= byte(v)
+		}
+	}
+	return "ok:" + H(b) + "/" + I(4*len(labs))
+}
+
+// refRoot reports the family of the root the labels end with.
+func refRoot(labs []string) (front []string, v4, ok bool) {
+	n := len(labs)
+	if n >= 2 && labs[n-1] == "arpa" && (labs[n-2] == "in-addr" || labs[n-2] == "ip6") {
+		return labs[:n-2], labs[n-2] == "in-addr", true
+	}
+	return nil, false, false
+}
+
+// refPrefix is the property's statement of PrefixFromReversedAddr (theorem C05_prefix).
+func refPrefix(in string) string {
+	if netutil.ValidateDomainName(trimOneDot(in)) != nil {
+		return "AddrError"
+	}
+	front, v4, ok := refRoot(refLabels(in))
+	if !ok || (v4 && len(front) > 4) || (!v4 && len(front) > 32) {
+		return "AddrError"
+	}
+	for _, l := range front {
+		if (v4 && !isOctetLabel(l)) || (!v4 && !isNibbleLabel(l)) {
+			return "AddrError"
+		}
+	}
+	return refPrefixOf(front, v4)
+}
+
+// refExtract is the property's statement of ExtractReversedAddr (theorems C05_extract_iff,
+// C05_extract_sound, C05_longest4/6): the longest label-aligned canonical suffix.
+func refExtract(in string) string {
+	if netutil.ValidateDomainName(trimOneDot(in)) != nil {
+		return "AddrError"
+	}
+	front, v4, ok := refRoot(refLabels(in))
+	if !ok {
+		return "AddrError"
+	}
+	max := 32
+	if v4 {
+		max = 4
+	}
+	k := 0
+	for k < max && k < len(front) {
+		l := front[len(front)-1-k]
+		if (v4 && !isOctetLabel(l)) || (!v4 && !isNibbleLabel(l)) {
+			break
+		}
+		k++
+	}
+	return refPrefixOf(front[len(front)-k:], v4)
+}
+
 func execRPfx(args []string) string {
-	return showPrefix(netutil.PrefixFromReversedAddr(string(UnH(args[0]))))
+	in := string(UnH(args[0]))
+	out := showPrefix(netutil.PrefixFromReversedAddr(in))
+	if ref := refPrefix(in); ref != out {
+		out += " spec=bad:prefix-reference-says-" + ref
+	}
+	return out
 }
 
 func execRExt(args []string) string {
-	return showPrefix(netutil.ExtractReversedAddr(string(UnH(args[0]))))
+	in := string(UnH(args[0]))
+	out := showPrefix(netutil.ExtractReversedAddr(in))
+	if ref := refExtract(in); ref != out {
+		out += " spec=bad:extract-reference-says-" + ref
+	}
+	return out
 }
 
 // toarpa: args = ip bytes (hex, any length)
